@@ -135,11 +135,22 @@ _SWAP = {"Lt": "Gt", "Gt": "Lt", "Le": "Ge", "Ge": "Le", "Eq": "Eq"}
 _NEG = {"Lt": "Ge", "Ge": "Lt", "Le": "Gt", "Gt": "Le"}
 
 
-def rel(body, op, a_rx, b_rx):
+def _is_arith(root):
+    import formula
+    try:
+        return formula.norm(formula.parse(root))[0] in ("sum", "prod", "bin")
+    except Exception:
+        return False
+
+
+def rel(body, op, a_rx, b_rx, pure=True):
     """Comparisons that decide `a <op> b` in whichever way they are spelled: `a > b` is also
     `b < a`, `!(a <= b)` and `!(b >= a)`.  Returns Cmp objects re-oriented to the requested
     operator: `.a`/`.b` are the roots matching a_rx/b_rx and `.true_edges` are the CFG edges on
-    which `a <op> b` holds.  (`comparisons` already folds `!=` into `Eq`.)"""
+    which `a <op> b` holds.  (`comparisons` already folds `!=` into `Eq`.)
+    With `pure` (default) an operand that is itself an arithmetic expression (`x + 1`, `2 * y`)
+    does not match: a guard `a > b + 1` is not the guard `a > b`.  Rules whose operand is
+    meant to be a formula pass pure=False and check the formula themselves."""
     out = []
     for c in comparisons(body):
         forms = [(c.op, c.a, c.b, c.true_edges, c.false_edges),
@@ -150,6 +161,8 @@ def rel(body, op, a_rx, b_rx):
                       (_SWAP[n], c.b, c.a, c.false_edges, c.true_edges)]
         for (o, a, b, te, fe) in forms:
             if o == op and re.search(a_rx, a) and re.search(b_rx, b):
+                if pure and (_is_arith(a) or _is_arith(b)):
+                    continue
                 r = Cmp()
                 r.body, r.bb, r.op, r.a, r.b = body, c.bb, o, a, b
                 r.true_edges, r.false_edges, r.line, r.call = te, fe, c.line, c.call
